@@ -15,6 +15,7 @@ def check(ctx, rep):
     if not fm.ok:
         return
     K.rule_try_send(fm, rep)
+    K.rule_send_metric_callers(fm, rep, 'R1c')
     K.rule_send_metric(fm, rep)
     K.rule_error_type(fm, rep)
     K.rule_quiet_send(fm, rep)
